@@ -301,6 +301,8 @@ func mxBodies() mxObj {
 		"multipart/form-data":               mxObj{"schema": mxRef("Small")},
 		"text/plain":                        mxObj{"schema": mxObj{"type": "string"}},
 		"application/octet-stream":          mxObj{"schema": mxObj{"type": "string", "format": "binary"}},
+		"application/merge-patch+json":      mxObj{"schema": mxObj{"type": "object", "properties": mxObj{"patch": mxObj{"type": "string"}, "rev": mxObj{"type": "integer"}}}},
+		"application/hal+json":              mxObj{"schema": mxObj{"type": "object", "properties": mxObj{"hal": mxObj{"type": "string"}}}},
 	}})
 	// form and multipart: every primitive as a field, arrays, and object members under each encoding
 	formProps := mxObj{}
@@ -426,6 +428,11 @@ func mxResponses() mxObj {
 		"application/json":         mxObj{"schema": mxRef("SmallM")},
 		"text/plain":               mxObj{"schema": mxObj{"type": "string"}},
 		"application/octet-stream": mxObj{"schema": mxObj{"type": "string", "format": "binary"}},
+		// structured-syntax JSON types (read as JSON through content_type_aliases of the matrix configuration), one
+		// that sorts before application/json and two that sort after it; their schemas have optional members only
+		"application/hal+json":     mxObj{"schema": mxRef("LooseA")},
+		"application/problem+json": mxObj{"schema": mxRef("LooseB")},
+		"application/vnd.api+json": mxObj{"schema": mxRef("LooseC")},
 	}, "headers": hdrs("str", "i64")}})
 	add("stream_json", mxObj{"200": mxObj{"description": "ok", "content": js(mxObj{"type": "array", "items": mxRef("Small")})}})
 	add("primitive_bodies", mxObj{
@@ -443,6 +450,9 @@ func mxResponses() mxObj {
 		return mxObj{"type": "object", "required": []any{"str"}, "properties": mxObj{"str": mxObj{"type": "string"}, "i64": mxObj{"type": "integer", "format": "int64"}, "flag": mxObj{"type": "boolean"}}}
 	}
 	comps := mxObj{"schemas": mxObj{
+		"LooseA": mxObj{"type": "object", "properties": mxObj{"a": mxObj{"type": "string"}, "n": mxObj{"type": "integer"}}},
+		"LooseB": mxObj{"type": "object", "properties": mxObj{"b": mxObj{"type": "string"}, "status": mxObj{"type": "integer"}}},
+		"LooseC": mxObj{"type": "object", "properties": mxObj{"c": mxObj{"type": "string"}, "flag": mxObj{"type": "boolean"}}},
 		"SmallP": small(), "SmallA": small(), "SmallM": small(), "Ok2XX": small(), "Bad4XX": small(), "Broken5XX": small(), "Other2XX": small(), "Other4XX": small(),
 		"Small":   mxObj{"type": "object", "required": []any{"str"}, "properties": mxObj{"str": mxObj{"type": "string"}, "i64": mxObj{"type": "integer", "format": "int64"}, "flag": mxObj{"type": "boolean"}, "f64": mxObj{"type": "number", "format": "double"}, "when": mxObj{"type": "string", "format": "date-time"}, "tags": mxObj{"type": "array", "items": mxObj{"type": "string"}}}},
 		"Problem": mxObj{"type": "object", "required": []any{"code", "message"}, "properties": mxObj{"code": mxObj{"type": "integer", "format": "int32"}, "message": mxObj{"type": "string"}, "details": mxObj{"type": "object", "additionalProperties": mxObj{"type": "string"}}}},
@@ -522,6 +532,10 @@ func WriteMatrix(dir string) []string {
 	}
 	return out
 }
+
+// matrixConfig is the generator configuration of the matrix documents: the corpus configuration plus aliases that
+// make structured-syntax JSON media types readable as JSON.
+const matrixConfig = corpusConfig + "  content_type_aliases:\n    application/problem+json: application/json\n    application/hal+json: application/json\n    application/vnd.api+json: application/json\n    application/merge-patch+json: application/json\n"
 
 // isMatrix: the package was generated from a matrix document (delivery is demanded by construction).
 func isMatrix(p CorpusPkg) bool { return strings.HasPrefix(specKey(p.Spec), "derived:mx_") }
